@@ -120,6 +120,10 @@ class Run:
                 print(f"VIOLATION property={self.prop} replay={path}")
                 print(f"  detail: {str(v['detail'])[:600]}")
                 reported += 1
+        if os.environ.get("VERIF_DUMP"):
+            with open(os.environ["VERIF_DUMP"], "w") as fp:
+                for v in self.violations:
+                    fp.write(jdump({"sig": v["sig"], "detail": str(v["detail"])[:400]}) + "\n")
         if self.violations and len(seen) > reported:
             print(f"  ... {len(seen) - reported} further distinct violation signatures not written")
         if not self.replaying:
